@@ -25,7 +25,8 @@ def regen(ctx):
 
 # ---------------------------------------------------------------- inputs
 def c01_api(r, idx):
-    api = apis.conventional(r)
+    # every package shape of apis.PACKAGES is visited in turn (namespace-less, 1..3 namespace segments, v1p1beta1, ...)
+    api = apis.conventional(r, package=apis.PACKAGES[(idx + 2 + idx // 6) % len(apis.PACKAGES)])
     feats = list(api.info["features"])
     extra_files, dep_protos = [], []
     k = idx % 6
